@@ -105,6 +105,10 @@ def gen(ctx):
         for _ in range(N // 3 + 5):
             x = rng.choice([0, 1, 0xffff, 0x10000, 0xffffffff, 0x100000000, (1 << 64) - 1, 1 << 63, rng.randrange(1 << 64), rng.randrange(1 << 33)])
             cases.append("%d assign %x" % (k, x))
+        for x in [-1, -2, -(1 << 31), -(1 << 61), 0, 1, 65535, 65536, (1 << 31) - 1, (1 << 61), rng.randrange(1 << 40), -rng.randrange(1, 1 << 40)]:
+            cases.append("%d signed %d" % (k, x))
+            if -(1 << 31) <= x < (1 << 31):
+                cases.append("%d signed %d int" % (k, x))
         for op in ["max", "min", "digits"]:
             cases.append("%d %s" % (k, op))
     return cases
